@@ -10,6 +10,7 @@ The theorems quantify over every caller (any permission code, any credential sta
 authentication enabled; `Caller` is what the SERVER holds about the credential (see DESIGN "C18 — as built").
 -/
 import ImmuModel.Auth.MatrixLemmas
+import ImmuModel.Auth.Streams
 
 namespace ImmuModel.Props.C18
 open ImmuModel ImmuModel.Auth
@@ -265,6 +266,91 @@ theorem sysdb_exceptions_exact :
   simp only [Bool.and_eq_true] at hrr
   exact ⟨r, hr, by simpa using hrr.1, by simpa using hrr.2⟩
 
+/-! ### long-lived streams: the gate of every REQUEST, not only of the call
+
+`Gen/Streams.lean` (regenerated) records where each streaming handler evaluates `getDBFromCtx`: unconditionally at entry
+and/or unconditionally in every iteration of the loop that receives from the stream. A handler that takes more than one
+request per stream (`multiRequest`: bidirectional, or answering inside its receive loop) must evaluate the gate for EVERY
+received request: hoisting it out of the loop, caching its result, or putting it under a condition empties `loopGates`
+and re-opens the theorems below. -/
+
+/-- Every streaming RPC of the served descriptors has a row of gate-position facts, and no row is stale. -/
+theorem every_stream_has_gate_facts :
+    (∀ r ∈ Gen.rpcs, r.stream = true → (streamGate? r.handler).isSome = true) ∧
+    (∀ g ∈ Gen.streamGates, ∃ r ∈ Gen.rpcs, r.stream = true ∧ r.handler = g.handler) := by
+  have h1 : Gen.rpcs.all (fun r => !r.stream || (streamGate? r.handler).isSome) = true := by decide
+  have h2 : Gen.streamGates.all (fun g => Gen.rpcs.any (fun r => r.stream && r.handler == g.handler)) = true := by decide
+  constructor
+  · intro r hr hs
+    have := List.all_eq_true.mp h1 r hr
+    simpa [hs] using this
+  · intro g hg
+    obtain ⟨r, hr, he⟩ := List.any_eq_true.mp (List.all_eq_true.mp h2 g hg)
+    simp only [Bool.and_eq_true] at he
+    exact ⟨r, hr, he.1, by simpa using he.2⟩
+
+/-- Every streaming handler that uses `getDBFromCtx` evaluates it UNCONDITIONALLY before it serves anything: before the
+first receive/send/loop, or in every iteration of its receive loop. -/
+theorem stream_gated_before_serving : ∀ g ∈ Gen.streamGates, streamEntryOk g = true := by
+  have h : Gen.streamGates.all streamEntryOk = true := by decide
+  exact fun g hg => List.all_eq_true.mp h g hg
+
+/-- **Every handler that receives more than one request per stream gates every request**: its receive loop evaluates,
+on the unconditional path between the receive and the answer, a non-empty list of `getDBFromCtx` gates, each with a row in
+`methodsPermissions` and each one of the gates of that handler. -/
+theorem multi_request_stream_gates_every_request :
+    ∀ g ∈ Gen.streamGates, multiRequest g = true →
+      g.recvLoop = true ∧ g.loopGates ≠ [] ∧ ∀ n ∈ g.loopGates, (permsOf n).isSome = true := by
+  have h : Gen.streamGates.all streamRowOk = true := by decide
+  intro g hg hm
+  have hok := List.all_eq_true.mp h g hg
+  simp only [streamRowOk, hm, Bool.not_true, Bool.false_or, Bool.and_eq_true] at hok
+  obtain ⟨⟨hl, hne⟩, hall⟩ := hok
+  refine ⟨hl, ?_, ?_⟩
+  · intro he; simp [he] at hne
+  · intro n hn
+    have := List.all_eq_true.mp hall n hn
+    simp only [Bool.and_eq_true] at this
+    exact this.1
+
+/-- **Withdrawal reaches open streams.** A further request on an open multi-request stream is served only if the
+credential is one the server accepts NOW, a database is selected, and the caller is the sysadmin or holds NOW a
+permission that `methodsPermissions` lists for one of the handler's gates — whatever held when the stream was opened. -/
+theorem stream_request_needs_current_permission (cfg : Config) (c : Caller) (g : Gen.StreamGate)
+    (hg : g ∈ Gen.streamGates) (hm : multiRequest g = true) (ha : cfg.auth = true)
+    (h : streamNextGate cfg c g = .allow) :
+    credsOk c = true ∧ c.db ≠ .none ∧
+      ∃ n ∈ g.loopGates, c.sysadmin = true ∨ hasPermissionForMethod c.permSel n = true := by
+  have hall : Gen.streamGates.all streamRowOk = true := by decide
+  obtain ⟨n, hn, _, hv⟩ := streamNextGate_allow (List.all_eq_true.mp hall g hg) hm h
+  have := getDB_allow ha hv
+  exact ⟨this.1, this.2.1, n, hn, this.2.2.2.1⟩
+
+/-- … and for a multi-request stream that returns / changes database contents that permission is at least R / RW. -/
+theorem stream_request_effect_permission (cfg : Config) (c : Caller) (g : Gen.StreamGate)
+    (hg : g ∈ Gen.streamGates) (hm : multiRequest g = true) (ha : cfg.auth = true)
+    (h : streamNextGate cfg c g = .allow) :
+    (effect? g.handler = some .readsData → c.sysadmin = true ∨ c.permSel ∈ rCodes) ∧
+    (effect? g.handler = some .writesData → c.sysadmin = true ∨ c.permSel ∈ rwCodes) := by
+  have hall : Gen.streamGates.all streamRowOk = true := by decide
+  have heff : Gen.streamGates.all streamEffectOk = true := by decide
+  obtain ⟨n, hn, _, hv⟩ := streamNextGate_allow (List.all_eq_true.mp hall g hg) hm h
+  have hp := (getDB_allow ha hv).2.2.2.1
+  have he := List.all_eq_true.mp heff g hg
+  simp only [streamEffectOk, hm, Bool.not_true, Bool.false_or] at he
+  have hrow := List.all_eq_true.mp he n hn
+  constructor
+  · intro hr
+    rcases hp with hs | hp
+    · exact Or.inl hs
+    · simp only [hr] at hrow
+      exact Or.inr (permsWithin_spec hrow hp)
+  · intro hw
+    rcases hp with hs | hp
+    · exact Or.inl hs
+    · simp only [hw] at hrow
+      exact Or.inr (permsWithin_spec hrow hp)
+
 /-! ### non-vacuity: the hypotheses are satisfiable and the gate really distinguishes -/
 
 private def rSet : Gen.Rpc := ⟨"ImmuService", "Set", "Set", false⟩
@@ -285,5 +371,14 @@ example : rpcGate authOnCfg { user Gen.permissionAdmin with db := .none }
 example : rpcGate authOnCfg (user Gen.permissionRW)
     ⟨"ImmuService", "UnloadDatabase", "UnloadDatabase", false⟩ = .denyPerm := by decide
 example : credsOk { user 2 with kind := .none } = false := rfl
+
+-- streams: a multi-request stream exists, and its per-request gate follows the CURRENT credential
+private def gExp : Gen.StreamGate := ⟨"StreamExportTx", true, true, true, true, ["ExportTx"], []⟩
+example : gExp ∈ Gen.streamGates ∧ multiRequest gExp = true := by decide
+example : streamNextGate authOnCfg (user Gen.permissionAdmin) gExp = .allow := by decide
+example : streamNextGate authOnCfg (user Gen.permissionR) gExp = .denyPerm := by decide
+example : streamNextGate authOnCfg { user Gen.permissionAdmin with state := .stale } gExp = .denyAuth := by decide
+example : ∃ g ∈ Gen.streamGates, multiRequest g = false ∧
+    streamNextGate authOnCfg { user Gen.permissionRW with state := .stale } g = .allow := by decide
 
 end ImmuModel.Props.C18
